@@ -93,7 +93,7 @@ def handle (op : String) (j : Json) : Except String Json := do
     let m := if path == "mem" then
         (if op == "pileup" then pileupGlobal isz mk else maskGlobal isz mk).map (fun d => obs (toDict isz d) d)
       else
-        let chroms := if op == "pileup" then pileupStream isz mk else maskStream isz mk
+        let chroms := if op == "pileup" then pileupStreamRuns isz mk else maskStreamRuns isz mk
         some (obs chroms chroms.flatten)
     let sp := specMask ign ivs
     let sc := (List.range n).map (fun c => if op == "pileup" then specPileupChrom isz sp c else specMaskChrom isz sp c)
@@ -220,6 +220,14 @@ def handle (op : String) (j : Json) : Except String Json := do
     let m := (maskGlobal isz (maskData ign ivs)).map (fun d => f (toDict isz d))
     let sp := specMask ign ivs
     pure (reply (optJ id m) (some (f ((List.range n).map (specMaskChrom isz sp)))))
+  | "seq" =>
+    let ivs ← getIvs j
+    let stranded ← getBool j "stranded"
+    let seqs ← getNatListList j "codes"
+    let arrays := ((seqs.zip ign).filter (fun y => !y.2)).map (·.1)
+    let f := fun (rows : List (List Nat)) => Json.mkObj [("rows", natListList rows)]
+    if (← ivsRefused j ign) then pure (reply raised none) else
+    pure (reply (optJ f (Base.omap (extractSeqRow isz arrays.flatten stranded) (maskData ign ivs))) none)
   | _ => throw s!"C10: unknown op {op}"
 
 end Drv.C10
